@@ -242,17 +242,32 @@ Section Exec.
       pack cfg (pv_pos pv) parent ctx feats ts rs stf used vote sr
     end.
 
-  (* ------------------------------------------------------------ node import (executeAndCommitBlock) *)
+  (* ------------------------------------------------------------ node import (executeAndCommitBlock -> commitBlock) *)
   (* the repository as far as a block import can change it: stored blocks with receipts and conflict numbers,
-     committed states, best pointer *)
+     committed states, best pointer.  The writes are listed in the order cmd/thor/node/block_exec.go issues them:
+     executeAndCommitBlock returns before any write on errKnownBlock / errParentMissing / errBFTRejected and on an error
+     of cons.Process; commitBlock then does stage.Commit, repo.AddBlock (block + receipts + best pointer), bft.CommitBlock
+     (Crash/Model.v — C13 — refines these three into key-value batches for ACCEPTED blocks). *)
   Record repo := mkRepo { rp_blocks : list (block * list receipt * N); rp_states : list State; rp_best : option block }.
 
-  Definition import (cfg : config) (pv : pview) (parent : header) (st0 : State) (rp : repo) (b : block) (now conflicts : N)
-             (become_best : bool) : repo * outcome :=
-    match process cfg pv parent st0 b now with
-    | Accepted st rcs =>
-      (mkRepo ((b, rcs, conflicts) :: rp_blocks rp) (st :: rp_states rp) (if become_best then Some b else rp_best rp),
-       Accepted st rcs)
-    | Rejected v => (rp, Rejected v)
+  Inductive write := WState (st : State) | WBlock (b : block) (rcs : list receipt) (conflicts : N) (best : bool).
+
+  Definition import_writes (known parent_stored bft_accepts : bool) (o : outcome) (b : block) (conflicts : N) (best : bool)
+    : list write :=
+    if known then [] else if negb parent_stored then [] else if negb bft_accepts then []
+    else match o with
+         | Accepted st rcs => [WState st; WBlock b rcs conflicts best]
+         | Rejected _ => []
+         end.
+
+  Definition apply_write (rp : repo) (w : write) : repo :=
+    match w with
+    | WState st => mkRepo (rp_blocks rp) (st :: rp_states rp) (rp_best rp)
+    | WBlock b rcs c best => mkRepo ((b, rcs, c) :: rp_blocks rp) (rp_states rp) (if best then Some b else rp_best rp)
     end.
+
+  Definition import (cfg : config) (pv : pview) (parent : header) (st0 : State) (rp : repo) (b : block) (now conflicts : N)
+             (known parent_stored bft_accepts become_best : bool) : repo * outcome :=
+    let o := process cfg pv parent st0 b now in
+    (fold_left apply_write (import_writes known parent_stored bft_accepts o b conflicts become_best) rp, o).
 End Exec.
